@@ -366,3 +366,10 @@ def r5(cx, rec):
 def r6(cx, rec):
     from rules import C12
     C12.r6b(cx, rec)
+
+
+@TABLE.rule('7', 'K1', 'a piece the client has stays had: Missing / Reserved is never stored over Have, so a later choice cannot pick it '
+            '(shared with C12)', floor=6)
+def r7(cx, rec):
+    from rules import C12
+    C12.r5(cx, rec)
